@@ -11,6 +11,8 @@ import (
 	"time"
 
 	"golang.org/x/exp/mmap"
+
+	"github.com/klev-dev/klevdb/pkg/verifhook"
 )
 
 var (
@@ -125,6 +127,7 @@ func OpenWriter(path string, offset int64, newVersion Version) (w *Writer, retEr
 	if err != nil {
 		return nil, fmt.Errorf("write log stat: %w", err)
 	}
+	verifhook.FS("open", "message.OpenWriter", path, "")
 
 	pos := stat.Size()
 	var v Version
@@ -136,6 +139,7 @@ func OpenWriter(path string, offset int64, newVersion Version) (w *Writer, retEr
 		if _, err := f.Write(h[:]); err != nil {
 			return nil, fmt.Errorf("write log header: %w", err)
 		}
+		verifhook.FS("write", "message.OpenWriter/header", path, "")
 		pos = int64(len(h))
 		v = newVersion
 	} else {
@@ -209,6 +213,7 @@ func (w *Writer) writeV1(m Message) (int64, error) {
 	} else {
 		w.pos += int64(n)
 	}
+	verifhook.FS("write", "message.Writer.Write", w.Path, "")
 	return pos, nil
 }
 
@@ -256,6 +261,7 @@ func (w *Writer) writeV2(m Message) (int64, error) {
 	} else {
 		w.pos += int64(n)
 	}
+	verifhook.FS("write", "message.Writer.Write", w.Path, "")
 	return pos, nil
 }
 
@@ -267,6 +273,7 @@ func (w *Writer) Sync() error {
 	if err := w.f.Sync(); err != nil {
 		return fmt.Errorf("write log sync: %w", err)
 	}
+	verifhook.FS("fsync", "message.Writer.Sync", w.Path, "")
 	return nil
 }
 
